@@ -89,9 +89,9 @@ def gen(rp, rw, tier):
         for _ in range(rw.randint(1, 4)):
             k = rw.random()
             if k < 0.45:
-                nem.append(["nem", "week_start", rw.randrange(7)])
+                nem.append(["nem", "week_start", rw.choice([7, -1, 9]) if rw.random() < 0.1 else rw.randrange(7)])
             elif k < 0.9:
-                nem.append(["nem", "week_end", rw.randrange(7)])
+                nem.append(["nem", "week_end", rw.choice([7, -1, 9]) if rw.random() < 0.1 else rw.randrange(7)])
             else:
                 nem.append(["nem", "clock", world["clock"] + rw.choice([1, -1, 86400 * 10**6, rw.randrange(-10**12, 10**12)])])
     common.add_nemesis_and_barriers(rw, actors, nem, restart_p=0.12)
@@ -197,6 +197,33 @@ def expected(xobs, u, which, ws, we):
     return ("dt", rf, off)
 
 
+def expected_own_occurrence(xobs, u, which):
+    """second/minute/hour of a value that is itself inside a repeated period: the unit may also be
+    read as the one of the value's own occurrence (the reading the repository's own tests pin:
+    02:59:59+01:00 Europe/Paris .start_of('hour') keeps +01:00) -> ("dt", fields, offset) | None when
+    it does not apply."""
+    if xobs[0] != "DateTime" or u not in ("second", "minute", "hour"):
+        return None
+    zone = zone_of(xobs[4])
+    if not isinstance(zone, str):
+        return None
+    f = xobs[1]
+    try:
+        own = tzdb.wall_to_instants(zone, f)
+        if len(own) != 2:
+            return None
+        w = unit_walls(f, u, 0, 6)[0 if which == "start_of" else 1]
+        ts = tzdb.wall_to_instants(zone, w)
+        if len(ts) != 2:
+            return None
+        x_inst = tzdb.naive_us(f) - int(xobs[3]) * 10**6
+        t = ts[own.index(x_inst)]
+        rf, off, _fold = tzdb.render(zone, t)
+    except (OverflowError, ValueError):
+        return None
+    return ("dt", rf, off)
+
+
 def l2_check(run):
     sc = run.sc
     viols = []
@@ -226,6 +253,12 @@ def l2_check(run):
                         answers.append(e)
             if None in answers:
                 continue   # unit boundary outside years 1..9999 or foreign tzinfo: statement silent
+            own = expected_own_occurrence(xobs, u, op[2])
+            if own is not None:
+                # start_of and end_of must delimit the *same* unit: inside a repeated period the
+                # library's (tested, documented) unit for second/minute/hour is the one of the
+                # value's own occurrence, so that is the answer for both ends
+                answers = [own]
             n += 1
             ok = False
             got = None
@@ -250,6 +283,11 @@ def l2_check(run):
                                 if w is None:
                                     continue
                                 c = tzdb.classify_fold(zone, w)
+                                if c == "skipped":
+                                    # at the edge of the gap (the unit starts/ends exactly where the gap
+                                    # does) or strictly inside it (zones with transitions off the hour)
+                                    nb = tzdb.us_to_fields(tzdb.naive_us(w) + (-1 if op[2] == "start_of" else 1))
+                                    c = "skipped-inside" if tzdb.classify(zone, nb) == "skipped" else "skipped"
                                 if c == "skipped" and tzdb.classify(zone, w[:3] + [0, 0, 0, 0]) == "skipped" \
                                         and tzdb.classify(zone, w[:3] + [23, 59, 59, 999999]) == "skipped":
                                     c = "whole-day-skipped"
